@@ -39,7 +39,7 @@ var c09Pkgs = []c09Pkg{
 
 func init() {
 	for _, p := range c09Pkgs {
-		oracle.RegisterSource(p.path, fmt.Sprintf("package %s\n\nvar V%s int\n\ntype T%s struct{ F int }\n\nfunc F%s() int { return 0 }\n", p.base, p.tag, p.tag, p.tag))
+		oracle.RegisterSource(p.path, fmt.Sprintf("package %s\n\nvar V%s int\n\ntype T%s struct{ F int }\n\nfunc F%s() int { return 0 }\n\nconst K%s = 2\n\ntype M%s map[int]int\n", p.base, p.tag, p.tag, p.tag, p.tag, p.tag))
 	}
 }
 
@@ -95,6 +95,29 @@ func (s *c09State) useInBody(pi int, kind string) {
 		cb.VarRef(nil).StructLit(o.Type(), 0, false).Assign(1)
 	case "func":
 		cb.VarRef(nil).Val(o).Call(0).Assign(1)
+	case "slicekey":
+		// _ = []int{p.K: 1}: the package occurs only as the index key of a slice literal
+		k := s.pkg.Import(c09Pkgs[pi].path).Ref("K" + c09Pkgs[pi].tag)
+		cb.VarRef(nil).Val(k).Val(1).SliceLit(types.NewSlice(types.Typ[types.Int]), 2, true).Assign(1)
+		s.feats["ref-only-as-literal-key"] = true
+	case "arraykey":
+		k := s.pkg.Import(c09Pkgs[pi].path).Ref("K" + c09Pkgs[pi].tag)
+		cb.VarRef(nil).Val(k).Val(1).ArrayLit(types.NewArray(types.Typ[types.Int], 4), 2, true).Assign(1)
+		s.feats["ref-only-as-literal-key"] = true
+	case "mapkey":
+		// _ = q.M{p.K: 1}: the package occurs only as a key of a literal of a named map type of another package
+		k := s.pkg.Import(c09Pkgs[pi].path).Ref("K" + c09Pkgs[pi].tag)
+		qi := (pi + 1) % len(c09Pkgs)
+		m := s.pkg.Import(c09Pkgs[qi].path).Ref("M" + c09Pkgs[qi].tag)
+		cb.VarRef(nil).Val(k).Val(1).MapLit(m.Type(), 2).Assign(1)
+		s.model[s.cur][c09Pkgs[qi].path] = true
+		s.feats["ref-only-as-literal-key"] = true
+	case "fieldval":
+		// _ = q.T{F: p.V}
+		qi := (pi + 1) % len(c09Pkgs)
+		tq := s.pkg.Import(c09Pkgs[qi].path).Ref("T" + c09Pkgs[qi].tag)
+		cb.VarRef(nil).Val(0).Val(o).StructLit(tq.Type(), 2, true).Assign(1)
+		s.model[s.cur][c09Pkgs[qi].path] = true
 	default:
 		cb.VarRef(nil).Val(o).Assign(1)
 	}
@@ -452,7 +475,7 @@ func TestC09(t *testing.T) {
 		actions := map[string]func(*rapid.T){
 			"file": func(t *rapid.T) { add(c09Op{Op: "file", File: rapid.IntRange(0, 2).Draw(t, "f")}) },
 			"ref": func(t *rapid.T) {
-				add(c09Op{Op: "ref", Pkg: pk.Draw(t, "p"), Kind: pick(t, "kind", []string{"val", "type", "func"}), Ctx: pick(t, "ctx", []string{"body", "body", "init", "sig", "typedecl"})})
+				add(c09Op{Op: "ref", Pkg: pk.Draw(t, "p"), Kind: pick(t, "kind", []string{"val", "type", "func", "val", "type", "func", "slicekey", "arraykey", "mapkey", "fieldval"}), Ctx: pick(t, "ctx", []string{"body", "body", "init", "sig", "typedecl"})})
 			},
 			"refdup": func(t *rapid.T) {
 				add(c09Op{Op: "ref", Pkg: rapid.IntRange(0, 2).Draw(t, "p"), Kind: "val", Ctx: "body"})
